@@ -35,6 +35,10 @@ def gen_case(rng, tier):
     r = rng.random()
     if r < 0.3:
         gene = {"kind": "toy", "genome": rng.choice(["hg19", "hg38"])}
+    elif r < 0.4:
+        # partial deletions are the only structural alleles of this catalogue
+        gene = {"kind": "world", "world": SL.gen_stage_world(rng, pseudo=True, deletion=False, lfusion=False,
+                                                             rfusion=False, custom_del=True)}
     elif r < 0.9 or not cfg["shipped"]:
         gene = {"kind": "world", "world": SL.gen_stage_world(rng, pseudo=rng.random() < 0.9, deletion=rng.random() < 0.8,
                                                              custom_del=rng.random() < 0.4)}
@@ -267,7 +271,14 @@ def run_case(case, seg, viol, stats, sample):
     rng = random.Random(case["seed"])
     gene = SL.load_gene(case["gene"])
     gname = case["gene"].get("name", case["gene"]["kind"])
-    if not gene.do_copy_number:
+    # a catalogue with structural alleles (whole-gene deletion, fusion, partial deletion: any configuration
+    # besides the default one) has copy-number calling; "unavailable" is for genes without any
+    structural = len(gene.cn_configs) > 1
+    if structural != bool(gene.do_copy_number):
+        viol.append({"clause": "copy-number calling is (un)available contrary to the catalogue's structural alleles",
+                     "detail": {"gene": gname, "configurations": sorted(gene.cn_configs),
+                                "do_copy_number": bool(gene.do_copy_number)}})
+    if not structural:
         return
     stats["genes"][gname] = stats["genes"].get(gname, 0) + 1
     profile = Profile("test", gap=case["gap"])
@@ -513,6 +524,20 @@ def config_clauses(seg, viol, stats):
             viol.append({"clause": "unknown configuration name was not rejected", "detail": {"given": user}})
         except AldyException:
             pass
+        # one Profile object for a panel of genes (an API user does that): what one call assumed for a gene
+        # without copy-number calling must not become the next gene's "user-supplied" structure
+        shared = Profile("test", male=True)
+        chr0 = gene.chr
+        gene.do_copy_number = False
+        gene.chr = "X"
+        r1 = CN.estimate_cn(gene, shared, None, "cbc")
+        gene.chr = chr0
+        r2 = CN.estimate_cn(gene, shared, None, "cbc")
+        if sum(r1[0].solution.values()) != 1 or sum(r2[0].solution.values()) != 2 or shared.cn_solution:
+            viol.append({"clause": "default copies when copy-number calling is unavailable are wrong",
+                         "detail": {"history": "one Profile object: male X-linked gene, then an autosomal gene",
+                                    "got": [dict(r1[0].solution), dict(r2[0].solution)],
+                                    "profile_cn_solution_afterwards": shared.cn_solution}})
         gene.do_copy_number = False
         for male, chrom, want in ((False, gene.chr, 2), (True, "X", 1), (True, gene.chr, 2), (False, "X", 2)):
             gene.chr = chrom
